@@ -140,6 +140,16 @@ CLAIMS = {
         "minimum over the orbit by definition of the model; on the implementation it is compared with an independent brute "
         "force, as are symmetrise (all flags, shapes, hkl/uvw/xyz), unique and the metadata. The 1e-10 rounding of "
         "near-duplicates and Miller.round's float search are compared, not proved."),
+ "C18": dict(category="proof", design_ref="DESIGN.md section 5 C18",
+   technique="Lean 4: chunked = whole for every chunk size (lists, induction), einsum tables and built-in kernels = model product (AST-translated, ring), backends agree on unit quaternions; differential run across lazy x chunk x backend x dtype x whole/element-wise",
+   text="Proved: for every chunk size, chunked evaluation of element-wise maps and of outer products equals whole evaluation "
+        "in values and row-major self.shape + other.shape layout (with the index formula of the outer product); the dask "
+        "einsum coefficient tables and the numba fallback kernels are, on every run, AST-translated and proved equal to the "
+        "model's Hamilton product / rotation; the numpy-quaternion sandwich product and the built-in kernel agree on unit "
+        "quaternions; integer inputs embed by a ring homomorphism. dask scheduling, numpy-quaternion arithmetic and rounding "
+        "are outside the theorems: the same call is run under lazy x chunk sizes 1..beyond size x backend (flag toggled "
+        "in-process) x float64/float32/int64 x whole/element-wise, exactly against the chunked integer model and against each "
+        "other, including symmetry-reduced outer angles and distance matrices."),
 }
 REASONS = {}
 checks = []
